@@ -217,6 +217,40 @@ def fix_order(lines, expect):
     return lines, expect
 
 
+def schedule_sweep(res, tier, lines_out, spans):
+    """the schedule functions themselves, for every bracket and round of a whole range of configurations: epochs =
+    ceil(max_epochs / factor^(bracket-round)) in exact integer arithmetic, round 0 of a bracket the cheapest, the last
+    round max_epochs, monotone along the rounds; the same tables go to the Lean model (exact arithmetic)"""
+    kt = impl()
+    from keras_tuner.tuners import hyperband
+    top = 130 if tier == "quick" else 1200
+    for fa in range(2, 8):
+        for me in range(1, top + 1):
+            o = hyperband.HyperbandOracle(objective=kt.Objective("score", "min"), max_epochs=me, factor=fa, hyperband_iterations=1)
+            nb = o._get_num_brackets()
+            exact_nb = 1
+            while fa ** exact_nb <= me:
+                exact_nb += 1
+            if nb != exact_nb:
+                res.violations.append({"pid": "C10", "what": f"max_epochs={me}, factor={fa}: {nb} brackets, the schedule has {exact_nb}", "sig": {"tag": "schedule-table"},
+                                       "replay": {"suite": "hyperband", "table": [me, fa]}})
+                continue
+            bad = None
+            for b in range(nb):
+                for r in range(b + 1):
+                    e = o._get_epochs(b, r)
+                    exact = -(-me // fa ** (b - r))
+                    if e != exact:
+                        bad = f"max_epochs={me}, factor={fa}: round {r} of bracket {b} gets {e} epochs, ceil({me}/{fa}^{b - r}) = {exact}"
+            if bad:
+                res.violations.append({"pid": "C10", "what": bad, "sig": {"tag": "schedule-table"}, "replay": {"suite": "hyperband", "table": [me, fa]}})
+                continue
+            res.hist["schedule-tables"] += 1
+            ln = [dict(suite="hyperband", op="init", max_epochs=me, factor=fa, iterations=1, minimize=True, max_retries=0, max_consec=3)]
+            spans.append((len(lines_out), ln, [table_str(o)], {"suite": "hyperband", "table": [me, fa]}))
+            lines_out += ln
+
+
 def run(seed, tier, n=None):
     res = Result("hyperband")
     res.rule = ("random parallel schedules (1-5 workers, 20-400 requests) on HyperbandOracle with max_epochs 1-40, factor 2-5, 1-2 iterations, "
@@ -240,6 +274,8 @@ def run(seed, tier, n=None):
             res.nontrivial.add(hashlib.sha1(json.dumps(lines, sort_keys=True).encode()).hexdigest())
         if len(res.samples) < 2 and tags.get("promotion"):
             res.samples.append({"scenario": doc, "first_ops": lines[:5], "impl_answers": [e[:200] if e else e for e in expect[:5]]})
+    if seed % 1000 == 0:        # once per run (the suite is split over worker processes with seeds s*1000 + w)
+        schedule_sweep(res, tier, all_lines, spans)
     try:
         out = run_driver(all_lines)
     except Exception as e:
@@ -252,6 +288,11 @@ def run(seed, tier, n=None):
 
 def replay(doc):
     res = Result("hyperband")
+    if "table" in doc:
+        spans, lines = [], []
+        schedule_sweep(res, "quick", lines, spans)
+        res.violations = [v for v in res.violations if v["replay"].get("table") == doc["table"]]
+        return res
     try:
         lines, expect, d, tags = scenario(doc["seed"], res)
     except Violation as v:
